@@ -997,6 +997,14 @@ def zval_method(I, v, name, args, kwargs, node):
             return args[1] if len(args) > 1 else NONE
         if name in ("keys", "values", "items"):
             return SIterable(name, v)
+        if name == "update" and len(args) == 1 and isinstance(args[0], ZVal) and isinstance(args[0].ty, TMap) and args[0].ty.sort() == ty.sort():
+            # d.update(e): keys of e override, every other key keeps its entry
+            o = args[0].t
+            k = z3.Const("upd_key", ty.k.sort())
+            pres = z3.Lambda([k], z3.Or(z3.Select(accs[0](v.t), k), z3.Select(accs[0](o), k)))
+            vals = z3.Lambda([k], z3.If(z3.Select(accs[0](o), k), z3.Select(accs[1](o), k), z3.Select(accs[1](v.t), k)))
+            v.cell.set(mk(pres, vals))
+            return NONE
         if name == "pop":
             kt = unwrap(ty.k, args[0])
             if c.branch(z3.Select(accs[0](v.t), kt)):
